@@ -916,6 +916,8 @@ class Exec:
                 mk = "std::iter::Iterator::all"
             elif nt and nt.endswith(" as std::iter::Iterator>::for_each"):
                 mk = "std::iter::Iterator::for_each"
+            elif nt and nt.endswith(" as std::iter::Iterator>::find_map"):
+                mk = "std::iter::Iterator::find_map"
             elif nt and nt.endswith(" as std::iter::Iterator>::next") and nt.startswith(("<std::iter::Map<", "<std::iter::Filter<")):
                 mk = "chain::next"      # a `for` loop over `inner.filter(p).map(f)`: the adaptors applied to the inner item
             elif nt and nt.endswith(" as std::ops::Try>::branch"):
@@ -1739,6 +1741,16 @@ def _opt_cases(st, o, bb, frame, body, span):
     """-> list of (state, is_some, payload) for an Option-valued term"""
     if isinstance(o, tuple) and o[0] == "agg" and o[2] in ("Some", "None"):
         return [(st, o[2] == "Some", o[3][0] if o[2] == "Some" and o[3] else None)]
+    if isinstance(o, tuple) and o[0] in ("okopt", "erropt") and len(o) == 2:
+        # `r.ok()` / `r.err()`: Some iff r is Ok / Err - the same discriminant condition a `match r` records
+        out = []
+        for is_some in (True, False):
+            s2 = st.fork()
+            if not _res_cond(s2, o[1], (o[0] == "okopt") == is_some, bb, frame, body, span):
+                continue
+            pay = (_okp(o[1]) if o[0] == "okopt" else _errp(o[1])) if is_some else None
+            out.append((s2, is_some, pay))
+        return out
     known = st.known.get(("disc", o))
     out = []
     for is_some in (True, False):
@@ -1763,16 +1775,16 @@ def _mk_option_model(kind):
     def model(ex, body, st, bb, t, c, args, frame, cont, target, nt, span):
         o = args[0]
         fidx = {"map": 1, "and_then": 1, "is_some_and": 1, "map_or": 2, "map_or_else": 2, "unwrap_or_else": 1,
-                "filter": 1}[kind]
+                "filter": 1, "or_else": 1}[kind]
         clos = args[fidx] if len(args) > fidx else None
         cb = ex._closure_body(clos)
         if cb is None:
             return
         dcb = ex._closure_body(args[1]) if kind == "map_or_else" else None
         for (s2, is_some, payload) in _opt_cases(st, o, bb, frame, body, span):
-            if kind == "unwrap_or_else":
+            if kind in ("unwrap_or_else", "or_else"):
                 if is_some:
-                    for r in cont(s2, payload):
+                    for r in cont(s2, payload if kind == "unwrap_or_else" else _some(payload)):
                         yield r
                 else:
                     for (s3, ret, ex_) in _run_closure(ex, body, s2, bb, frame, cb, clos, [], target, nt, span, "runs-iff-None"):
@@ -2029,6 +2041,13 @@ def _chain_next(ex, body, st, bb, frame, it, ntgt, span, target, nt):
                             s3.events.append(Event("cond", bb, frame, body, term=key, value=vv, exp=False, span=span, is_bool=True))
                         yield (s3, x if v else "skip", None)
         return
+    if isinstance(base, tuple) and base[0] == "call" and norm(base[1]) in ("std::iter::repeat_with", "core::iter::repeat_with") \
+            and len(base[2]) == 1 and ex._closure_body(base[2][0]) is not None:
+        # `iter::repeat_with(f)`: never exhausted, every `next` is one call of f
+        fn = base[2][0]
+        for (s2, ret, ex_) in _run_closure(ex, body, st, bb, frame, ex._closure_body(fn), fn, [], target, nt, span, "repeat_with"):
+            yield (s2, None, ex_) if ex_ is not None else (s2, ret, None)
+        return
     res = ("call", ntgt, (("ref", it),), fresh())
     st.events.append(Event("call", bb, frame, body, target=ntgt, ntarget=norm(ntgt), args=[("ref", it)], result=res,
                            callee=_FakeCallee(ntgt), span=span, fterm=None, pure=False))
@@ -2077,6 +2096,85 @@ def _model_chain_next(ex, body, st, bb, t, c, args, frame, cont, target, nt, spa
                     yield r
     for r in step(st, 0):
         yield r
+
+
+def _apply_callable(ex, body, st, bb, frame, fn, argterms, target, nt, span, model):
+    """a closure (inlined) or a function item (`Result::ok` as a projection, anything else as a pure call term) applied to
+    argument terms; yields (state, ret, exit|None)"""
+    cb = ex._closure_body(fn)
+    if cb is not None:
+        for r in _run_closure(ex, body, st, bb, frame, cb, fn, argterms, target, nt, span, model):
+            yield r
+        return
+    if isinstance(fn, tuple) and fn[0] == "fn":
+        proj = _project(norm(fn[1]), list(argterms))
+        yield (st, proj if proj is not None else ("call", fn[1], tuple(argterms), None), None)
+        return
+    yield (st, ("call", "<callable>", (fn,) + tuple(argterms), fresh()), None)
+
+
+def _model_find_map(ex, body, st, bb, t, c, args, frame, cont, target, nt, span):
+    """Iterator::find_map(f) as the loop it is: next(); None -> None; Some(x) -> f(x): Some(y) -> Some(y), None -> again.
+    With `iter::repeat_with(attempt)` in front this is the retry loop `loop { if let Some(y) = f(attempt()) { return y } }`."""
+    if len(args) < 2:
+        return
+    it, fn = args[0], args[1]
+    if ex._closure_body(fn) is None and not (isinstance(fn, tuple) and fn[0] == "fn"):
+        return
+    full = (c.full or "") if c is not None else ""
+    ntgt = "<%s as std::iter::Iterator>::next" % _innermost_iter_type(full, it)
+    rounds = max(2, ex.unroll + 1)
+
+    def again(s, k):
+        if k + 1 < rounds:
+            for r in step(s, k + 1):
+                yield r
+        else:
+            ex._count()
+            yield (s, ("retry", bb), None)
+
+    def step(s, k):
+        for (s1, item, e_) in _chain_next(ex, body, s, bb, frame, it, ntgt, span, target, nt):
+            if e_ is not None:
+                yield (s1, e_, None)
+            elif item is None:
+                for r in cont(s1, _NONE):
+                    yield r
+            elif item == "skip":
+                for r in again(s1, k):
+                    yield r
+            else:
+                for (s2, ret, ex_) in _apply_callable(ex, body, s1, bb, frame, fn, [item], target, nt, span, "find_map"):
+                    if ex_ is not None:
+                        yield (s2, ex_, None)
+                        continue
+                    for (s3, is_some, payload) in _opt_cases(s2, ret, bb, frame, body, span):
+                        if is_some:
+                            for r in cont(s3, _some(payload)):
+                                yield r
+                        else:
+                            for r in again(s3, k):
+                                yield r
+    for r in step(st, 0):
+        yield r
+
+
+def _model_option_flatten(ex, body, st, bb, t, c, args, frame, cont, target, nt, span):
+    """Option<Option<T>>::flatten: None -> None, Some(inner) -> inner"""
+    if not args:
+        return
+    for (s2, is_some, payload) in _opt_cases(st, args[0], bb, frame, body, span):
+        for r in cont(s2, payload if is_some else _NONE):
+            yield r
+
+
+def _model_option_unwrap_or(ex, body, st, bb, t, c, args, frame, cont, target, nt, span):
+    """Option::unwrap_or(o, d): Some(x) -> x, None -> d"""
+    if len(args) < 2:
+        return
+    for (s2, is_some, payload) in _opt_cases(st, args[0], bb, frame, body, span):
+        for r in cont(s2, payload if is_some else args[1]):
+            yield r
 
 
 def _innermost_iter_type(full, it):
@@ -2360,6 +2458,10 @@ HIGHER_ORDER = {
     "core::bool::then": _model_bool_then,
     "core::bool::then_some": _model_bool_then_some,
     "std::option::Option::filter": _model_option_filter,
+    "std::option::Option::or_else": _mk_option_model("or_else"),
+    "std::option::Option::flatten": _model_option_flatten,
+    "std::option::Option::unwrap_or": _model_option_unwrap_or,
+    "std::iter::Iterator::find_map": _model_find_map,
     "std::thread::LocalKey::with": _model_with,
     "std::thread::LocalKey::try_with": _model_try_with,
     "std::result::Result::unwrap_or_else": _model_unwrap_or_else,
